@@ -390,10 +390,10 @@ def nodesMatch (R : Rel) : Node → Node → Bool
   | .struct _ td ue ui fs, .struct _ td' ue' ui' gs =>
     td == td' && ue == ue' && ui == ui' && fieldsMatch R fs gs && typedefOk R td fs gs
   | .union vs, .union ws => variantsMatch R vs ws
-  | .array t dy c e eb, .array t' dy' c' e' eb' =>
-    -- a TL1 tuple whose size is a nat field/parameter has its length on the TL2 wire, exactly like a vector:
-    -- only fixed-size tuples (same count) are a different value domain
-    ((t && !dy) == (t' && !dy')) && (!(t && !dy) || c == c') && eb == eb' && (eb || R.contains (e, e'))
+  | .array _ _ _ e eb, .array _ _ _ e' eb' =>
+    -- tuple-ness and counts are not compared: the migration removes nat parameters, so `n*[T]` / `tuple T n` become
+    -- `[]T` by design; in TL2 every array carries its length on the wire, so the encodings of a value coincide
+    eb == eb' && (eb || R.contains (e, e'))
   | .dict e, .dict e' => R.contains (e, e')
   | _, _ => false
 
